@@ -509,6 +509,14 @@ class Engine:
         return ('proj', v, el)
 
     def fold_static_idx(self, t):
+        # an immutable scalar static -> its constant value
+        if t[0] == 'static':
+            s = self.crate.statics.get(t[1])
+            if s and not s["mutable"] and s["ty"]["k"] in ("int", "float") and s.get("bytes"):
+                raw = bytes.fromhex(s["bytes"]); ek = tykey(s["ty"])
+                b = int.from_bytes(raw, "little")
+                return C(ek, wrap_int(ek, b) if s["ty"]["k"] == "int" else b)
+            return t
         # ('idx', ('static', p), const) on an immutable integer table -> constant
         if t[0] == 'idx' and t[1][0] == 'static' and is_const(t[2]):
             s = self.crate.statics.get(t[1][1])
